@@ -450,7 +450,16 @@ fn run(s: &Setup, ops: &[Op], rep: &mut Report, classes: bool) -> Result<Psbt, F
         match op {
             Op::Finalize | Op::FinalizeMall => {
                 let mall = *op == Op::FinalizeMall;
-                let _ = guard("finalize", || if mall { p.finalize_mall_mut(&secp) } else { p.finalize_mut(&secp) })?;
+                let r = guard("finalize", || if mall { p.finalize_mall_mut(&secp) } else { p.finalize_mut(&secp) })?;
+                // (h) the result tells whether every input is final now (inputs that were final
+                // before are skipped, not errors)
+                let all_final = (0..n).all(|j| is_final(&p, j));
+                if r.is_ok() != all_final {
+                    return fail(
+                        &format!("finalize-result-inconsistent/{}", if r.is_ok() { "ok-but-not-final" } else { "err-but-all-final" }),
+                        format!("finalize{}_mut returned {:?} while the inputs' final state is {:?}", if mall { "_mall" } else { "" }, r.as_ref().map_err(|e| e.iter().map(|x| x.to_string()).collect::<Vec<_>>()), (0..n).map(|j| is_final(&p, j)).collect::<Vec<_>>()),
+                    );
+                }
                 // (d) idempotent
                 let mut again = p.clone();
                 let _ = guard("finalize", || if mall { again.finalize_mall_mut(&secp) } else { again.finalize_mut(&secp) })?;
@@ -468,6 +477,12 @@ fn run(s: &Setup, ops: &[Op], rep: &mut Report, classes: bool) -> Result<Psbt, F
                     return fail(
                         &format!("finalize-inp-disagrees/{}", if mall { "mall" } else { "nonmall" }),
                         format!("finalize_inp{}_mut({}) -> {:?} leaves input {} different from what finalize{}_mut produces (final: {} vs {})", if mall { "_mall" } else { "" }, i, r.is_ok(), i, if mall { "_mall" } else { "" }, is_final(&p, *i), is_final(&all, *i)),
+                    );
+                }
+                if r.is_ok() != is_final(&p, *i) {
+                    return fail(
+                        &format!("finalize-result-inconsistent/inp/{}", if r.is_ok() { "ok-but-not-final" } else { "err-but-final" }),
+                        format!("finalize_inp{}_mut({}) returned {:?} while the input's final state is {}", if mall { "_mall" } else { "" }, i, r.as_ref().map_err(|e| e.to_string()), is_final(&p, *i)),
                     );
                 }
                 for j in 0..n {
@@ -559,7 +574,7 @@ fn run(s: &Setup, ops: &[Op], rep: &mut Report, classes: bool) -> Result<Psbt, F
 impl Check for C14 {
     fn id(&self) -> &'static str { "C14" }
     fn rule(&self) -> String {
-        "case = PSBT with 1-3 inputs, each spending an output of a random sane definite descriptor (hex and xpub keys with origins; witness_utxo / non_witness_utxo as the type requires), all signatures made for the actual unsigned transaction; history = up to 14 operations from {update_input_with_descriptor(i), add signature k of input i, add preimages(i), add unknown field(i), finalize_mut, finalize_mall_mut, finalize_inp_mut(i), finalize_inp_mall_mut(i), extract}; a twin history with the add-operations of every run shuffled. Invariants after every step: newly final inputs validate in the reference interpreter (standardness flags) inside the actual transaction and carry no signing data; final inputs never change; a finalize that does not finalize an input leaves it deep-equal; finalize twice == once; finalize_inp(_mall)_mut(i) leaves input i exactly as finalize(_mall)_mut would; extract Ok => all inputs final and valid, transaction == unsigned tx + final fields, PSBT unchanged; after update: redeem/witness scripts, key origins (own BIP32), tap internal key / merkle root / control blocks / per-key leaf hashes equal the independent model; twin histories end in byte-identical PSBTs. Non-trivial = histories with a failing finalize followed by a successful one for the same input, or >= 2 finalize calls, or a reordered twin; distinct by (descriptors, history).".into()
+        "case = PSBT with 1-3 inputs, each spending an output of a random sane definite descriptor (hex and xpub keys with origins; witness_utxo / non_witness_utxo as the type requires), all signatures made for the actual unsigned transaction; history = up to 14 operations from {update_input_with_descriptor(i), add signature k of input i, add preimages(i), add unknown field(i), finalize_mut, finalize_mall_mut, finalize_inp_mut(i), finalize_inp_mall_mut(i), extract}; a twin history with the add-operations of every run shuffled. Invariants after every step: newly final inputs validate in the reference interpreter (standardness flags) inside the actual transaction and carry no signing data; final inputs never change; a finalize that does not finalize an input leaves it deep-equal; finalize twice == once; finalize(_mall)_mut returns Ok exactly when every input is final afterwards and finalize_inp(_mall)_mut(i) exactly when input i is (already-final inputs are skipped, never errors); finalize_inp(_mall)_mut(i) leaves input i exactly as finalize(_mall)_mut would; extract Ok => all inputs final and valid, transaction == unsigned tx + final fields, PSBT unchanged; after update: redeem/witness scripts, key origins (own BIP32), tap internal key / merkle root / control blocks / per-key leaf hashes equal the independent model; twin histories end in byte-identical PSBTs. Non-trivial = histories with a failing finalize followed by a successful one for the same input, or >= 2 finalize calls, or a reordered twin; distinct by (descriptors, history).".into()
     }
     fn lanes(&self, tier: Tier) -> Vec<(&'static str, usize, usize)> {
         match tier {
